@@ -164,7 +164,11 @@ theorem wk0_stepCreated {p : Pool} {t : Nat} (h : WK (ET t) p) (tk : PTask) : WK
     split
     · exact wk0_afterWorker h0 _
     · exact wk0_afterWorker h0 _
-    · exact wk0_suspendTask h0 _ (Or.inl rfl)
+    · exact wk0_suspendTask (wk_modTask_ex h0 t _ rfl) _ (Or.inl rfl)
+
+theorem wk0_workerNext {p : Pool} {t : Nat} (h : WK (ET t) p) : WK0 (p.workerNext t) := by
+  unfold workerNext
+  exact wk0_suspendTask (wk_modTask_ex (wk_logEv h _) t _ rfl) _ (Or.inl rfl)
 
 theorem wk0_workerCancelled {p : Pool} {t : Nat} (h : WK (ET t) p) (tk : PTask) : WK0 (p.workerCancelled t tk) := by
   unfold workerCancelled
@@ -197,7 +201,9 @@ theorem wk0_stepInWorker {p : Pool} {t : Nat} (h : WK (ET t) p) (tk : PTask)
   · exact wk0_workerCancelled (wk_modTask_ex h t _ rfl) tk
   · rename_i hc
     split
-    · exact wk0_afterWorker h _
+    · split
+      · exact wk0_workerNext h
+      · exact wk0_afterWorker h _
     · exact wk0_afterWorker h _
     · rename_i h1 h2
       refine wk0_still_quiet h tk hk (Or.inl hph) ?_
